@@ -370,6 +370,32 @@ Theorem c09x_distinct_tracks_fresh_ids : forall X h,
 Proof. exact xdistinct_tracks_asis. Qed.
 Print Assumptions c09x_distinct_tracks_fresh_ids.
 
+(* the two selectors are EXACT on the tree as it is (valid names, F4 i-iii
+   repaired): a call raises "Exceeding max tracks" iff `sel_cap` fires, and —
+   where it does not — the call is complete iff `sel_iv` does not fire (the
+   matcher answered "no pair" although a detection is above the threshold) *)
+Theorem c09x_selector_max_tracks_exact : forall X st f m,
+  names_ok X = true -> fix_iv X = false -> fix_cap X = false -> repaired (base X) -> cur st = seq 0 m ->
+  (sel_cap X st f = true <-> xstep X st f = (st, Raise ExcErr)).
+Proof. exact sel_cap_exact. Qed.
+Print Assumptions c09x_selector_max_tracks_exact.
+
+Lemma sel_iv_def : forall X st f,
+  sel_iv X st f =
+  (negb (fix_iv X) && negb (is_init (base X) st) &&
+   negb (scores_raise (base X) st (length (f_dets f))) &&
+   match f_answer f with APairs [] => existsb snd (f_dets f) | _ => false end).
+Proof. reflexivity. Qed.
+Print Assumptions sel_iv_def.
+
+Theorem c09x_selector_no_pair_exact : forall X st f,
+  names_ok X = true -> fix_iv X = false -> cap_asis_or_none X -> repaired (base X) ->
+  Inv (base X) st -> sel_cap X st f = false ->
+  contract_step (base X) (st, f, snd (xstep X st f)) ->
+  (sel_iv X st f = false <-> ok_complete (st, f, snd (xstep X st f))).
+Proof. exact sel_iv_exact. Qed.
+Print Assumptions c09x_selector_no_pair_exact.
+
 (* non-vacuity of the partial theorem with a cap that is reached but not exceeded *)
 Example ex_cap_reached_not_exceeded : forall g w r,
   xrun (x_now (cfg_rep true g w r) (Some 1)) [ ([(10, true); (11, true)], [], AFail) ]
